@@ -665,6 +665,21 @@ static std::string call_content(const std::string& m, const Sx& cs) {
     for (int64_t i = 0; i < n; i++) { if (i) o += " "; o += pd(c->getitem_at_nowrap(i)); }
     return o + ")";
   }
+  if (m == "iter_fields") {   // RecordArray: for every field, all rows (what Record::field(j) returns for each row)
+    const RecordArray* r = dynamic_cast<const RecordArray*>(c.get());
+    if (!r) throw std::logic_error("iter_fields: RecordArray expected");
+    c->check_for_iteration();
+    std::string o = "(";
+    int64_t n = r->length();
+    bool firstf = true;
+    for (auto& f : r->contents()) {
+      if (!firstf) o += " "; firstf = false;
+      o += "(";
+      for (int64_t i = 0; i < n; i++) { if (i) o += " "; o += pd(f->getitem_at_nowrap(i)); }
+      o += ")";
+    }
+    return o + ")";
+  }
   if (m == "tojson") {
     OptStr nan = optstr(cs[A + 2]), inf = optstr(cs[A + 3]), minf = optstr(cs[A + 4]), cre = optstr(cs[A + 5]), cim = optstr(cs[A + 6]);
     return hexs(c->tojson(to_b(cs[A]), to_i64(cs[A + 1]), nan.c(), inf.c(), minf.c(), cre.c(), cim.c()));
